@@ -174,8 +174,102 @@ func coldStart(ctx *core.Ctx) {
 	})
 }
 
+var seqDone bool
+
+// sequencePurity: results must depend on the arguments of a call only, not on the calls made
+// before it. The same (entry point, query, option) calls are made in three different orders
+// (so that every call has different predecessors) and must give identical results.
+func sequencePurity(ctx *core.Ctx) {
+	if seqDone {
+		return
+	}
+	seqDone = true
+	queries := []string{"a:b AND c", "x", "NOT y OR k:[1 TO 5]", "status:open OR urgent", "a b*", "w* /re/", "foo~ bar^2", "a:(x OR y) z", `"p q" -r`,
+		"a AND", "(a b", "x y)", "a:[1 TO", `"unterminated`, "a:b:c", "a:!", "", "a:b~2 AND c:d", "n:[1 TO 5] OR m:(1 OR 2)", "+x -y", "5", "a:5 b"}
+	opts := []string{"", "dfa", "my field", ""}
+	call := func(fn int, q, df string, explicitEmpty bool) string {
+		switch fn {
+		case 0:
+			var e *expr.Expression
+			var err error
+			if df != "" || explicitEmpty {
+				e, err = lucene.Parse(q, lucene.WithDefaultField(df))
+			} else {
+				e, err = lucene.Parse(q)
+			}
+			return fmt.Sprintf("%#v|%v", e, err != nil)
+		case 1:
+			var s string
+			var err error
+			if df != "" || explicitEmpty {
+				s, err = lucene.ToPostgres(q, lucene.WithDefaultField(df))
+			} else {
+				s, err = lucene.ToPostgres(q)
+			}
+			return fmt.Sprintf("%s|%v", s, err != nil)
+		default:
+			var s string
+			var p []any
+			var err error
+			if df != "" || explicitEmpty {
+				s, p, err = lucene.ToParameterizedPostgres(q, lucene.WithDefaultField(df))
+			} else {
+				s, p, err = lucene.ToParameterizedPostgres(q)
+			}
+			return fmt.Sprintf("%s|%#v|%v", s, p, err != nil)
+		}
+	}
+	type key struct {
+		fn, qi, oi int
+	}
+	base := map[key]string{}
+	check := func(order string, k key) {
+		res := call(k.fn, queries[k.qi], opts[k.oi], k.oi == 3)
+		ctx.Count("sequence_calls", 1)
+		if want, ok := base[k]; !ok {
+			base[k] = res
+		} else if want != res {
+			ctx.Violate("c14:result-depends-on-earlier-calls:"+[]string{"Parse", "ToPostgres", "ToParameterizedPostgres"}[k.fn], "call %d on %q with default field %q gives %q in the %s order but %q earlier: the result depends on previous calls", k.fn, queries[k.qi], opts[k.oi], res, order, want)
+		}
+	}
+	ctx.Case("call-sequence purity: same calls in three different orders", func() {
+		// order 1: per query, options ascending
+		for qi := range queries {
+			for oi := range opts {
+				for fn := 0; fn < 3; fn++ {
+					check("first", key{fn, qi, oi})
+				}
+			}
+		}
+		// order 2: per option (descending), queries descending: every no-option call now
+		// follows a call with a default field on another query, failed parses included
+		for oi := len(opts) - 1; oi >= 0; oi-- {
+			for qi := len(queries) - 1; qi >= 0; qi-- {
+				for fn := 2; fn >= 0; fn-- {
+					check("second", key{fn, qi, oi})
+				}
+			}
+		}
+		// order 3: the same query with and without the option back to back, option first
+		for qi := range queries {
+			for fn := 0; fn < 3; fn++ {
+				check("third", key{fn, qi, 1})
+				check("third", key{fn, qi, 0})
+				check("third", key{fn, qi, 2})
+				check("third", key{fn, qi, 0})
+			}
+		}
+		// order 4: seeded random
+		r := ctx.Rand("sequence")
+		for i := 0; i < 3000; i++ {
+			check("random", key{r.Intn(3), r.Intn(len(queries)), r.Intn(len(opts))})
+		}
+	})
+}
+
 func (c14) RunBatch(ctx *core.Ctx, batch int) {
 	coldStart(ctx)
+	sequencePurity(ctx)
 	cfg := configs(ctx.Tier)[batch]
 	runtime.GOMAXPROCS(cfg.procs)
 	r := ctx.Rand("corpus")
@@ -296,6 +390,7 @@ func (c14) Finish(res *core.Result, cov map[string]any) []string {
 	floor(res.Counters["concurrent_operations"] >= 10000, &reasons, "concurrent operations %d", res.Counters["concurrent_operations"])
 	floor(res.NDistinct("overlapping_pairs") >= 60, &reasons, "overlapping operation pairs observed %d < 60", res.NDistinct("overlapping_pairs"))
 	floor(res.Counters["race_logs_scanned"] > 0, &reasons, "race detector logs not scanned")
+	floor(res.Counters["sequence_calls"] >= 1000, &reasons, "call-sequence purity calls %d", res.Counters["sequence_calls"])
 	return reasons
 }
 
